@@ -48,15 +48,52 @@ let handle_seq r =
            (match (if kind = "fmin" then find_minimum else find_maximum) fops (fun1 e) xl xr tol with
             | Ok (x, tr) -> put_w "C"; put_f x; put_fl tr; put_i 1   (* find_minimum is a function of its arguments: a repetition gives the same answer *)
             | bad -> Buffer.clear buf; first := true; put_w (res_word bad); raise Seq_stop)
+       (* the caller writes the public members *)
+       | "putY" -> let y = list r in
+           List.iteri (fun i x -> objs.(i) <- x) (objs_put fops (Array.to_list objs) (nat_of_int ob) (PutY y)); put_w "P"
+       | "putS" -> let t = table r in
+           List.iteri (fun i x -> objs.(i) <- x) (objs_put fops (Array.to_list objs) (nat_of_int ob) (PutS t)); put_w "P"
+       | "putN" -> let nf = integer r in let mp = integer r in let nd = integer r in let fm = num r in
+           List.iteri (fun i x -> objs.(i) <- x) (objs_put fops (Array.to_list objs) (nat_of_int ob) (PutN (z_of_int nf, nat_of_int mp, nat_of_int nd, fm))); put_w "P"
        | _ ->
+           (* `ab <n> <request>`: the objective throws at its n-th evaluation (the call is abandoned unless it returns earlier) *)
+           let nab, kind = if kind = "ab" then (let n = integer r in let k2 = word r in (n, k2)) else (0, kind) in
            let q = read_req kind r (fun r -> funv (parse_fexpr r)) in
            let ol = Array.to_list objs and fl = Array.to_list ftols in
-           (match objs_call fops ol fl (nat_of_int ob) q with
-            | Ok (ol', o) ->
-                let same = (match fresh_call fops ftols.(ob) (req_call fops ol q) with Ok o2 -> if compare o2 o = 0 then 1 else 0 | _ -> 0) in
-                List.iteri (fun i x -> objs.(i) <- x) ol';
-                put_w "C"; put_out o; put_i same
-            | bad -> Buffer.clear buf; first := true; put_w (res_word bad); raise Seq_stop))
+           let normal () =
+             (match objs_call fops ol fl (nat_of_int ob) q with
+              | Ok (ol', o) ->
+                  let same = (match fresh_call fops ftols.(ob) (req_call fops ol q) with Ok o2 -> if compare o2 o = 0 then 1 else 0 | _ -> 0) in
+                  List.iteri (fun i x -> objs.(i) <- x) ol';
+                  put_w "C"; put_out o; put_i same
+              | bad -> Buffer.clear buf; first := true; put_w (res_word bad); raise Seq_stop) in
+           if nab <= 0 then normal ()
+           else
+             (match abandoned_call fops ftols.(ob) (req_call fops ol q) (nat_of_int nab) with
+              | Ok (Some pts) ->
+                  (* the state the abandoned call leaves in the object is not modelled (the theorems hold for every state): the object is
+                     kept as it was; the case language does not refer to its members until it has returned from a call *)
+                  List.iteri (fun i x -> objs.(i) <- x) (objs_abandon ol (nat_of_int ob) objs.(ob));
+                  put_w "A"; put_table pts
+              | Ok None -> normal ()
+              | Exit ->
+                  (* the completed call would end the process (size guard, NMAX); the abandoned one gets there only if it is not abandoned first:
+                     run the call with an objective that stops at its n-th evaluation *)
+                  let cnt = ref 0 and seen = ref [] in
+                  let stop = (fun f -> fun x -> incr cnt; seen := x :: !seen; if !cnt >= nab then raise Seq_stop else f x) in
+                  let c = (match req_call fops ol q with
+                    | CallG (f, pp) -> CallG (stop f, pp) | CallD (f, st, ds) -> CallD (stop f, st, ds) | Call1 (f, st, d) -> Call1 (stop f, st, d)) in
+                  let pp0 = (match req_call fops ol q with
+                    | CallG (_, pp) -> pp | CallD (_, st, ds) -> simplex_of fops st ds | Call1 (_, st, d) -> simplex_of fops st (List.map (fun _ -> d) st)) in
+                  let abandoned = (try ignore (fresh_call fops ftols.(ob) c); false with Seq_stop -> true) in
+                  if abandoned then begin
+                    (* the initial vertices are asked for in row order (C11_abandoned_call_evaluations); later points in evaluation order *)
+                    let m = List.length pp0 in
+                    let rec take k l = if k <= 0 then [] else (match l with [] -> [] | a :: t -> a :: take (k - 1) t) in
+                    let rec drop k l = if k <= 0 then l else (match l with [] -> [] | _ :: t -> drop (k - 1) t) in
+                    put_w "A"; put_table (take nab pp0 @ drop m (List.rev !seen))
+                  end else (Buffer.clear buf; first := true; put_w "EXIT"; raise Seq_stop)
+              | bad -> Buffer.clear buf; first := true; put_w (res_word bad); raise Seq_stop))
     done
   with Seq_stop -> ())
 
